@@ -89,6 +89,7 @@ def nmsgs(prog: dict) -> int:
 
 def sig_of(prog: dict, clause: str) -> dict:
     return {"clause": clause, "forward_recv": dp.has_forward_recv(prog),
+            "nested_holder": dp.has_nested_holder(prog),
             "source": prog["id"].split("/")[0]}
 
 
@@ -260,12 +261,13 @@ def analyse(run: Run, progs: list[dict], results: list[dict], tier: str,
     for rec in recs:
         v = val.verdicts[rec["id"]]
         if v != "ok":
-            pid = rec["id"].rsplit("#", 1)[0]
+            pid, run_tag = rec["id"].rsplit("#", 1)
+            cl = "real_code:trace" if run_tag.startswith("c") else "trace"
             run.violation(f"{rec['id']}:trace",
                           f"{rec['id']}: the real executor's trace is not a behaviour of "
                           f"DistExec (event {val.detail.get(rec['id'])})",
                           record={"prog": by_id[pid]}, observed=val.detail.get(rec["id"]),
-                          sig=sig_of(by_id[pid], "trace"))
+                          sig=sig_of(by_id[pid], cl))
     compared = real_states = 0
     for r in results:
         d = r.get("dfs", {})
